@@ -8,7 +8,7 @@ import numpy as np
 
 from ref import extref, fitref, pkgwriter
 
-BAND_WAV = {'B1': 1.0, 'B2': 2.2, 'B3': 4.5, 'B4': 8.0, 'B5': 24.0, 'B6': 0.8, 'N1': 0.6563, 'N2': 0.6583}
+BAND_WAV = {'B1': 1.0, 'B2': 2.2, 'B3': 4.5, 'B4': 8.0, 'B5': 24.0, 'B6': 0.8, 'N1': 0.6563, 'N2': 0.6583, 'K': 2.2, 'Ks': 2.15}          # K / Ks: two filters of which one name is the other plus a letter
 ALL_BANDS = ['B1', 'B2', 'B3', 'B4', 'B5']
 FLAGS = (0, 1, 2, 3, 4, 9)
 
